@@ -189,6 +189,31 @@ func garbageSym(n int) *mat.SymDense {
 }
 
 func checkChol(c cholCase) *vk.Failure {
+	if f := checkCholInner(c); f != nil || c.Type != "band" {
+		return f
+	}
+	// A zero-value BandCholesky is an empty receiver: the state queries must
+	// answer, not fault (the zero Cholesky and PivotedCholesky do). Checked last
+	// so that the rest of the case is evaluated behind this finding.
+	var z mat.BandCholesky
+	empty := false
+	res := vk.Call(func() { empty = z.IsEmpty() })
+	if res.Outcome == vk.RuntimeFault {
+		return failf("band-zero-value-fault", "IsEmpty() on a zero-value BandCholesky ended in a runtime fault: %s", res.Text)
+	}
+	if res.Outcome == vk.Returned && !empty {
+		return failf("band-zero-value-not-empty", "IsEmpty() on a zero-value BandCholesky returned false")
+	}
+	if r := vk.Call(func() { z.SymBand() }); r.Outcome == vk.RuntimeFault {
+		return failf("band-zero-value-fault", "SymBand() on a zero-value BandCholesky ended in a runtime fault: %s", r.Text)
+	}
+	if r := vk.Call(func() { z.Bandwidth() }); r.Outcome == vk.RuntimeFault {
+		return failf("band-zero-value-fault", "Bandwidth() on a zero-value BandCholesky ended in a runtime fault: %s", r.Text)
+	}
+	return nil
+}
+
+func checkCholInner(c cholCase) *vk.Failure {
 	n := c.N
 	sm := vk.NewSplitMix(c.Seed)
 	g := genSymClass(c.Class, n, c.LogK, c.Band, sm)
